@@ -245,20 +245,16 @@ class ProfileTables:
                     (self.macros if t.value.id == 'macros' else self.properties)[key.attr] = val
         if len(self.properties) < 9:
             raise AnalysisError('profiles.py: fewer than 9 property tables found')
-        exp = m.get('Profiles._expand_macros')
-        self.search_re, self.sub_re, self.wrap = expansion_regexes(exp, 'Profiles._expand_macros', m)
-        comp = m.get('Profiles._compile_regexes')
-        self.compile_wrap = None
-        self.flags = 0
-        for n in ast.walk(comp):
-            if isinstance(n, ast.Call) and call_name(n).endswith('LazyRegex'):
-                a = n.args[0]
-                if isinstance(a, ast.BinOp) and isinstance(const(a.left), str):
-                    self.compile_wrap = a.left.value
-                if len(n.args) > 1:
-                    self.flags = _flags(n.args[1])
-        if self.compile_wrap is None:
-            raise AnalysisError('Profiles._compile_regexes: wrapper not found')
+        # expansion and compilation are evaluated from the source, whatever their shape (as for the tokenizer tables)
+        self._exp = m.get('Profiles._expand_macros')
+        self._comp = m.get('Profiles._compile_regexes')
+        probe = self._compile({'x': 'a{nl}b'}, {'nl': 'N'})
+        pat, flags = probe['x']
+        if 'a(?:N)b' not in pat:
+            raise AnalysisError(f'Profiles._expand_macros: a macro is not expanded to (?:...) ({pat!r})')
+        self.compile_wrap = pat.replace('a(?:N)b', '%s')
+        self.wrap = '(?:%s)'
+        self.flags = flags
         # which macro table each profile is registered with (Profiles.__init__)
         init = m.get('Profiles.__init__')
         self.registration = []  # (profile const, properties const, macros const)
@@ -285,7 +281,52 @@ class ProfileTables:
             env.update(self.macros[mac])
         return env
 
+    def _fresh(self):
+        """A registry object as Profiles.__init__ leaves it before any profile is registered (so that
+        attributes the expansion keeps on the registry exist), without its own registration."""
+        import copy
+
+        from sa.absint import Evaluator, Raised, Record
+
+        init = copy.deepcopy(self.mod.get('Profiles.__init__'))
+        init.body = [st for st in init.body if not (isinstance(st, ast.Expr) and isinstance(st.value, ast.Call) and call_name(st.value) in ('self.addProfiles', 'self.addProfile'))]
+        me = Record()
+        r = Evaluator(init, module=self.mod, cls='Profiles').run(self=me, log=None)
+        if isinstance(r, Raised):
+            raise AnalysisError(f'Profiles.__init__: {r!r}')
+        return me
+
+    def _compile(self, dictionary, env):
+        """{name: (full pattern, flags)} through the source's own _expand_macros and _compile_regexes."""
+        from sa.absint import Evaluator, Raised, Record
+
+        class Lazy(Record):
+            def __init__(self, pattern, flags=0):
+                Record.__init__(self, pattern=pattern, flags=int(flags))
+
+        me = self._fresh()
+        ep = [a.arg for a in self._exp.args.args][1:]
+        try:
+            expanded = Evaluator(self._exp, module=self.mod, cls='Profiles').run(self=me, **dict(zip(ep, (dict(dictionary), dict(env)))))
+        except KeyError as e:
+            raise AnalysisError(f'macro {e} is undefined')
+        if isinstance(expanded, Raised):
+            raise AnalysisError(f'Profiles._expand_macros: {expanded!r}' + (' (a macro is undefined)' if expanded.kind == 'KeyError' else ''))
+        cp = [a.arg for a in self._comp.args.args][1:]
+        compiled = Evaluator(self._comp, intrinsics={'util': Record(LazyRegex=Lazy), 'util.LazyRegex': Lazy, 'LazyRegex': Lazy}, module=self.mod, cls='Profiles', model_types=(Lazy, re.Pattern)).run(self=me, **{cp[0]: expanded})
+        if isinstance(compiled, Raised):
+            raise AnalysisError(f'Profiles._compile_regexes: {compiled!r}')
+        out = {}
+        for k, v in compiled.items():
+            if isinstance(v, (Lazy, re.Pattern)):
+                out[k] = (v.pattern, int(v.flags) & ~int(re.UNICODE))
+            else:
+                raise AnalysisError(f'Profiles._compile_regexes: {k!r} is compiled to {type(v).__name__}')
+        return out
+
     def expand(self, pattern, env):
-        if self.wrap != '(?:%s)':
-            raise AnalysisError(f'unexpected macro wrapper {self.wrap!r}')
-        return rx.expand_macros(pattern, env, self.search_re, self.sub_re)
+        full = self._compile({'x': pattern}, env)['x'][0]
+        pre, post = self.compile_wrap.split('%s')
+        if not (full.startswith(pre) and full.endswith(post)):
+            raise AnalysisError('Profiles._compile_regexes: wrapper changed between calls')
+        return full[len(pre):len(full) - len(post)]
